@@ -194,18 +194,29 @@ fn execute<S: Sys, T>(sc: &Scope, hist: &[Op], verify_last: bool, f: impl FnOnce
     .unwrap_or_else(|p| Err(Viol::new("api.panic", format!("panic outside a guarded call (observer or constructor): {}", crate::wops::panic_msg(&p)))));
     let rep = close_window();
     crate::crash::exec_end();
-    let res = res?;
-    if !rep.errors.is_empty() {
-        return Err(Viol::new("alloc.error", rep.errors.join("; ")));
-    }
     let leaked: Vec<_> = rep.leaked.iter().filter(|b| b.subject).collect();
-    if !leaked.is_empty() {
-        return Err(Viol::new(
+    let teardown = if !rep.errors.is_empty() {
+        Some(Viol::new("alloc.error", rep.errors.join("; ")))
+    } else if !leaked.is_empty() {
+        Some(Viol::new(
             "c04.leak",
             format!("{} allocation(s) made by the arena were never returned to the allocator (first: size {}, align {}, gc id {})", leaked.len(), leaked[0].size, leaked[0].align, leaked[0].gc_id as i64),
-        ));
+        ))
+    } else {
+        None
+    };
+    match (res, teardown) {
+        (Ok(r), None) => Ok(r),
+        (Ok(_), Some(t)) => Err(t),
+        (Err(mut v), t) => {
+            // (the system was dropped when the step failed: the teardown report belongs to the same history)
+            if let Some(mut t) = t {
+                t.msg = format!("{} (the execution had already stopped at {}: {})", t.msg, v.oracle, v.msg);
+                v.also = Some(Box::new(t));
+            }
+            Err(v)
+        }
     }
-    Ok(res)
 }
 
 /// Public single-history execution (replay): returns the violation, if any, and the canonical hash.
@@ -446,6 +457,9 @@ fn expand<S: Sys>(sc: &Scope, prop: &str, probes: &Probes, table: &[Entry], inde
     let mut note = |so: &mut StateOut, hist: Vec<Op>, v: Viol, probe: Option<usize>| {
         if owned_by(v.oracle, prop) {
             so.found.push(Found { hist, viol: v, probe });
+        } else if !v.oracle.starts_with("harness") && !is_nofire(&v) && v.also.as_ref().map(|a| owned_by(a.oracle, prop)).unwrap_or(false) {
+            let a = *v.also.unwrap();
+            so.found.push(Found { hist, viol: a, probe });
         } else if v.oracle.starts_with("harness") {
             so.machinery.push(format!("{}: {} history {:?}", v.oracle, v.msg, hist));
         } else {
